@@ -34,7 +34,13 @@ class PyTemp:
         self.p = 0
         self.closed = False
 
+    fail_write_at = 0          # class-wide: the n-th write to ANY temp file raises ENOSPC (0 = never); reset by the harness
+    writes = 0
+
     def write(self, data):
+        PyTemp.writes += 1
+        if PyTemp.writes == PyTemp.fail_write_at:
+            raise OSError(28, 'No space left on device (injected, temp file %s)' % self.name)
         self.d = self.d[:self.p] + data + self.d[self.p + len(data):]
         self.p += len(data)
         return len(data)
@@ -138,6 +144,8 @@ def install(fs):
         RecordingSHA1.table = []
         _Counter.n = 0
         PyTemp._n = 0
+        PyTemp.writes = 0
+        PyTemp.fail_write_at = 0
     WF.hashlib = types.SimpleNamespace(sha1=RecordingSHA1)
     WF.uuid = types.SimpleNamespace(uuid4=_uuid4)
     wpull.util.datetime_str = lambda: '2020-01-02T03:04:05Z'
